@@ -14,11 +14,16 @@ import (
 	"sort"
 	"sync"
 	"sync/atomic"
+	"time"
 
 	"github.com/filecoin-project/go-f3/gpbft"
+	"github.com/filecoin-project/go-f3/internal/clock"
 	"github.com/filecoin-project/go-f3/internal/verif/vcommon"
 	"github.com/filecoin-project/go-f3/internal/verif/vfix"
+	"github.com/filecoin-project/go-f3/manifest"
 	"github.com/filecoin-project/go-f3/pmsg"
+	pubsub "github.com/libp2p/go-libp2p-pubsub"
+	mocknet "github.com/libp2p/go-libp2p/p2p/net/mock"
 )
 
 // ---- committee provider / verifier ------------------------------------------------------------------------
@@ -292,6 +297,83 @@ func twoStage(v *gpbft.VerifValidator, m *gpbft.GMessage, key gpbft.ECChainKey, 
 	return classify(err)
 }
 
+// ---- completion through the production partial-message manager --------------------------------------------------
+
+// mgrWorld is one real PartialMessageManager (started, over a peerless gossipsub): the two production completion
+// routes — the buffered one (message arrives before its chain: BufferPartialMessage, then the chain is
+// discovered) and the immediate one (chain already known: CompleteMessage) — are driven instead of re-stating
+// what they do.
+type mgrWorld struct {
+	pmm       *pmsg.PartialMessageManager
+	completed <-chan gpbft.PartiallyValidatedMessage
+	learnt    map[gpbft.ECChainKey]bool
+}
+
+func newMgrWorld() *mgrWorld {
+	mn := mocknet.New()
+	h, err := mn.GenPeer()
+	if err != nil {
+		panic(err)
+	}
+	ps, err := pubsub.NewGossipSub(bg, h)
+	if err != nil {
+		panic(err)
+	}
+	m := manifest.LocalDevnetManifest()
+	m.NetworkName = "verif-c13"
+	m.PubSub.ChainCompressionEnabled = false
+	prog := func() gpbft.InstanceProgress {
+		return gpbft.InstanceProgress{Instant: gpbft.Instant{ID: curInst, Round: 0, Phase: gpbft.QUALITY_PHASE}}
+	}
+	pmm, err := pmsg.NewPartialMessageManager(prog, ps, m, clock.RealClock)
+	if err != nil {
+		panic(err)
+	}
+	completed, err := pmm.Start(bg)
+	if err != nil {
+		panic(err)
+	}
+	return &mgrWorld{pmm: pmm, completed: completed, learnt: map[gpbft.ECChainKey]bool{}}
+}
+
+// buffered: the partially validated message waits in the manager's buffer until its chain is discovered. The
+// manager handles both events on one goroutine in arrival order of its select; the discovery is repeated until
+// the completed message comes out (a discovery that overtakes the buffering is ignored by the manager).
+func (w *mgrWorld) buffered(pv gpbft.PartiallyValidatedMessage, chain *gpbft.ECChain) (gpbft.PartiallyValidatedMessage, bool) {
+	w.pmm.BufferPartialMessage(bg, pv)
+	inst := pv.PartialMessage().Vote.Instance
+	wait := 100 * time.Microsecond
+	for t0 := time.Now(); time.Since(t0) < 5*time.Minute; {
+		w.pmm.NotifyChainDiscovered(bg, inst, chain)
+		select {
+		case got := <-w.completed:
+			return got, true
+		case <-time.After(wait):
+			if wait < 50*time.Millisecond {
+				wait *= 2
+			}
+		}
+	}
+	return nil, false
+}
+
+// immediate: the chain is already known to the manager's chain exchange when the message arrives.
+func (w *mgrWorld) immediate(p *gpbft.PartialGMessage, chain *gpbft.ECChain) bool {
+	if !w.learnt[chain.Key()] {
+		if err := w.pmm.VerifLearnChain(bg, p.Vote.Instance, chain); err != nil {
+			return false
+		}
+	}
+	// the chain is cached by a goroutine of the chain exchange: until then the message is "not complete yet"
+	for t0 := time.Now(); time.Since(t0) < 5*time.Minute; time.Sleep(50 * time.Microsecond) {
+		if _, ok := w.pmm.CompleteMessage(bg, p); ok {
+			w.learnt[chain.Key()] = true
+			return true
+		}
+	}
+	return false
+}
+
 // oneShot: what one-shot validation says about the completed message.
 func oneShot(v *gpbft.VerifValidator, m *gpbft.GMessage, chain *gpbft.ECChain, raw bool) string {
 	p, err := toPartial(m, raw)
@@ -418,6 +500,10 @@ func main() {
 		wg.Add(1)
 		go func() {
 			defer wg.Done()
+			var mw *mgrWorld
+			if *prop == "C13" {
+				mw = newMgrWorld()
+			}
 			for !stop.Load() {
 				i := int(next.Add(1)) - 1
 				if i >= len(items) {
@@ -555,6 +641,48 @@ func main() {
 							// a valid message must not be branded invalid by the partial stage when key and chain match
 						}
 					}
+					// ---- the same through the production manager (matching key, genuine chain: the only completions
+					// the manager ever performs, since it looks chains up by the announced key)
+					// (a malformed chain never reaches the manager: the chain exchange validates what it learns)
+					if key := m.Vote.Value.Key(); !key.IsZero() && m.Vote.Instance == curInst && m.Vote.Value.Validate() == nil {
+						var orig bytes.Buffer
+						_ = m.MarshalCBOR(&orig)
+						for _, route := range []string{"buffered", "immediate"} {
+							v := newValidator(pr, 64)
+							pv, c := partial(v, m, key)
+							if c != "accept" {
+								continue // never reaches the manager
+							}
+							evals.Add(1)
+							switch route {
+							case "buffered":
+								got, ok := mw.buffered(pv, m.Vote.Value)
+								if !ok {
+									report("manager-never-completes:"+route, fmt.Sprintf("%s (%s): buffered in the partial message manager, its chain discovered, but no completed message came out", it.label, it.spec), it, map[string]any{"route": route})
+									return
+								}
+								pv = got
+							case "immediate":
+								if !mw.immediate(pv.PartialMessage(), m.Vote.Value) {
+									report("manager-never-completes:"+route, fmt.Sprintf("%s (%s): CompleteMessage never completes although the chain was broadcast", it.label, it.spec), it, map[string]any{"route": route})
+									return
+								}
+							}
+							var done bytes.Buffer
+							_ = pv.PartialMessage().GMessage.MarshalCBOR(&done)
+							one := validate(newValidator(pr, 64), copyMsg(pv.PartialMessage().GMessage)) // one-shot verdict of the completed message
+							_, err := v.FullyValidateMessage(bg, pv)
+							two := classify(err)
+							if (two == "accept") != (one == "accept") {
+								report("two-stage-differs-from-one-shot:manager-"+route, fmt.Sprintf("%s (%s): completed by the partial message manager (%s route): two-stage verdict %s, one-shot verdict %s", it.label, it.spec, route, two, one), it, map[string]any{"route": route})
+								return
+							}
+							if it.valid && !bytes.Equal(done.Bytes(), orig.Bytes()) {
+								report("strip-complete-not-identity:manager-"+route, fmt.Sprintf("%s (%s): stripped, then completed by the partial message manager (%s route): not the original message", it.label, it.spec, route), it, map[string]any{"route": route})
+								return
+							}
+						}
+					}
 					// strip o complete = identity for valid messages
 					if it.valid {
 						p, err := pmsg.VerifToPartial(copyMsg(m))
@@ -587,7 +715,7 @@ func main() {
 	for _, i := range []int{0, len(items) / 2, len(items) - 1} {
 		chk.Sample(map[string]any{"message": items[i].label, "spec": items[i].spec.String(), "valid": items[i].valid})
 	}
-	chk.Set("rule", "one valid message per (step, round, value kind, justification kind) and every single and every pair of field deviations (sender class, instance, round, step, value, supplemental data, signature, ticket, justification presence and each justification field incl. signer sets and aggregate), each re-signed so that exactly the deviated rule is exercised; x 20 progress states on a fresh production validator; cache histories: every sequence of <=2 earlier full/partial validations of the message, its base and sibling deviations, or a group eviction, with cache sizes 64 and 2; C13: 3 announced keys x 4 completing chains through PartiallyValidate+FullyValidate vs one-shot")
+	chk.Set("rule", "one valid message per (step, round, value kind, justification kind) and every single and every pair of field deviations (sender class, instance, round, step, value, supplemental data, signature, ticket, justification presence and each justification field incl. signer sets and aggregate), each re-signed so that exactly the deviated rule is exercised; x 20 progress states on a fresh production validator; cache histories: every sequence of <=2 earlier full/partial validations of the message, its base and sibling deviations, or a group eviction, with cache sizes 64 and 2; C13: 3 announced keys x 4 completing chains through PartiallyValidate+FullyValidate vs one-shot, completion by the production inference; plus, for every message that passes the partial stage under its genuine key, completion by a real started PartialMessageManager on both of its routes (buffered until the chain is discovered; CompleteMessage with the chain already known), verdict compared with one-shot and bytes with the original")
 	chk.Assume("fake signing backend; fixed committee {10^6,10^6,10^6,1}; production cachingValidator reached through an injected constructor with harness-controlled progress and cache geometry")
 	chk.Assume("concurrent validation from many goroutines is not explored by this check (sequential histories only)")
 	chk.Finish()
